@@ -9,3 +9,4 @@ import BV.C16.ScriptLemmas
 import BV.C16.ScriptRoundtrip
 import BV.C16.KeysLemmas
 import BV.C16.TaprootLemmas
+import BV.C16.PubKeyLemmas
